@@ -37,6 +37,8 @@ type Prop struct {
 	CaseTimeout int
 	// Shards overrides the number of worker processes (default 16).
 	Shards int
+	// PostCheck is run by the driver after the workers (secondary oracles that observe a whole worker process).
+	PostCheck func(tier string, seed int64, dir string) (viol []Violation, inconclusive []string, extra map[string]any)
 }
 
 var props = map[string]*Prop{}
@@ -261,7 +263,12 @@ func runOneCase(p *Prop, c *C) {
 	p.Run(c)
 }
 
+// workerScratch is a directory private to this worker invocation (removed by the driver afterwards).
+var workerScratch string
+
 func workerMain(o workerOpts) int {
+	workerScratch = o.out + ".scratch"
+	os.MkdirAll(workerScratch, 0o755)
 	p := props[o.prop]
 	if p == nil {
 		fmt.Fprintf(os.Stderr, "unknown property %s\n", o.prop)
